@@ -276,6 +276,9 @@ Definition put_rts (m : node22) (s : Z) (k : node22 -> act node22) : act node22 
   match pool_put (f_rts m) s with Some l => k (set_frts m l) | None => Raise m E_Index end.
 Definition put_bam (m : node22) (s : Z) (k : node22 -> act node22) : act node22 :=
   match pool_put (f_bam m) s with Some l => k (set_fbam m l) | None => Raise m E_Index end.
+(* __put_session: back to the pool the number was taken from, decided by the session's destination *)
+Definition put_session (m : node22) (b : sbuf22) (k : node22 -> act node22) : act node22 :=
+  if t_dst b =? addr_GLOBAL then put_bam m (t_session b) k else put_rts m (t_session b) k.
 
 Fixpoint snd_pass22 (keys : list Z) (now nw : Z) (m : node22) (k : node22 -> Z -> act node22) : act node22 :=
   match keys with
@@ -290,7 +293,7 @@ Fixpoint snd_pass22 (keys : list Z) (now nw : Z) (m : node22) (k : node22 -> Z -
           else if t_deadline b >? now then snd_pass22 ks now (minw nw (t_deadline b)) m k
           else if t_state b =? tp22_st_WAITING_CTS then
             Emit m (OTx (tp22_abort (t_src b) (t_dst b) (t_session b) tp22_reason_TIMEOUT (t_pgn b)))
-                 (fun m' => del_then m' (fun m2 => put_rts m2 (t_session b) (fun m3 => snd_pass22 ks now nw m3 k)))
+                 (fun m' => del_then m' (fun m2 => put_session m2 b (fun m3 => snd_pass22 ks now nw m3 k)))
           else if t_state b =? tp22_st_SENDING_RTS_CTS then
             fd_burst (Z.to_nat (t_nseg b - t_next b) + 2) key now m (fun m1 =>
               match tget (f_snd m1) key with
@@ -301,7 +304,7 @@ Fixpoint snd_pass22 (keys : list Z) (now nw : Z) (m : node22) (k : node22 -> Z -
                   snd_pass22 ks now (minw nw (t_deadline b2)) (set_fsnd m1 (tset (f_snd m1) key b2)) k
               end)
           else if (t_state b =? tp22_st_WAITING_EOM_ACK) || (t_state b =? tp22_st_EOM_ACK_RECEIVED) || (t_state b =? tp22_st_TRANSMISSION_FINISHED) then
-            del_then m (fun m2 => put_rts m2 (t_session b) (fun m3 => snd_pass22 ks now nw m3 k))
+            del_then m (fun m2 => put_session m2 b (fun m3 => snd_pass22 ks now nw m3 k))
           else if t_state b =? tp22_st_SENDING_BAM then
             let package := t_next b in
             match py_nth (t_data b) package with
@@ -324,8 +327,8 @@ Fixpoint snd_pass22 (keys : list Z) (now nw : Z) (m : node22) (k : node22 -> Z -
             end
           else if t_state b =? tp22_st_SENDING_EOM_STATUS then
             Emit m (OTx (tp22_eom_status (t_src b) (t_dst b) (t_session b) (t_size b) (t_nseg b) (t_pgn b)))
-                 (fun m' => del_then m' (fun m2 => put_bam m2 (t_session b) (fun m3 => snd_pass22 ks now nw m3 k)))
-          else del_then m (fun m2 => snd_pass22 ks now nw m2 k)
+                 (fun m' => del_then m' (fun m2 => put_session m2 b (fun m3 => snd_pass22 ks now nw m3 k)))
+          else del_then m (fun m2 => put_session m2 b (fun m3 => snd_pass22 ks now nw m3 k))
       end
   end.
 
